@@ -174,7 +174,7 @@ example :
 /-- Outside the hypotheses the model does show the Go failures: an offset past the end panics
 (`p[i]` with `i = len(p)`), a data section on a padding file panics in `Write`. -/
 example : readAt [.data [1, 2]] [⟨0, 0, 2, false, 1⟩] 3 1 = .panic ∧
-    write [.padding] [⟨0, 0, 1, false, 1⟩] [5] 0 = .panic := by decide
+    write [.padding] [⟨0, 0, 1, false, 1⟩] [5] 0 = .panic [.padding] := by decide
 
 end ReadWrite
 
